@@ -231,6 +231,7 @@ PROPERTIES = {
                    'structural_fields:Optional._compile', 'structural_fields:Sequence._compile',
                    'structural_fields:normalize_raw_condition_into_a_callable',
                    'structural_fields:normalize_count_condition_into_a_callable'],
+        bounded=['C08twin#structural_fields:normalize_raw_condition_into_a_callable'],
         trusted_base=_COMMON_TRUST + ['abstract field contract role:FIELD.unpack / role:FIELD.pack for the element field (writes only the slots it owns)',
                                       'role contracts of user callbacks (count / when / until): pure, deterministic, do not raise PacketError'],
         assumptions=['slot sets of distinct fields of one packet are disjoint (WFClass, assumed)',
